@@ -8,6 +8,9 @@ def instances():
                         defs=["VX_OP=%d" % op], stubs=FMT_STUBS + CTX_STUBS + [s for s in CONTAINER_STUBS if "Complex" not in s], unwind=4, unwindset=EMPTY_DECL_UNWIND, timeout=400,
                         bounds="one operation from an arbitrary consistent state of 3 handles over 2 objects (inductive step over histories)",
                         inputs="which object each handle shares, which handles the operation is applied to"))
+    out.append(Inst(id="c17.dispatch", props=["C17", "C01"], harness="h_c17.cpp", entry="c17_dispatch", tus=CORE_TUS + ["blocc/plugin.cpp", "blocc/member/member_complex.cpp", "blocc/expression_member.cpp"],
+                    stubs=FMT_STUBS + CTX_STUBS + [s for s in CONTAINER_STUBS if "Complex" not in s], unwind=4, timeout=400,
+                    bounds="one compiled method call (module id 1) on a receiver whose object belongs to module 1 or 2, or is null", inputs="module id of the receiver's object, null flag"))
     PTUS = [t for t in CORE_TUS] + ["blocc/expression_complex_ctor.cpp", "blocc/statement_import.cpp", "blocc/plugin.cpp"]
     combos = [("A", "A", "B", 1), ("A", "B", "A", 5), ("A", "A", "B", 3), ("AB", "A", "AB", 4), ("A", "B", "B", 5), ("A", "A", "A", 7), ("A", "A", "B", 0), ("AB", "AB", "A", 1),
               ("A", "AB", "B", 5), ("A", "A", "B", 7), ("B", "A", "B", 6), ("A", "A", "B", 2)]
